@@ -170,8 +170,12 @@ package exec
 
 //@ extern func exec.(*sliceMachine).UpdateStatus
 //@   modifies nothing
-//@ extern func exec.(*sliceMachine).Assign
-//@   modifies Task.state, Task.waitc
+// Assign: a task assigned to a machine that is already lost is lost at once; otherwise the machine owns it.
+//@ func exec.(*sliceMachine).Assign (task)
+//@   requires s != nil && task != nil && s.tasks != nil
+//@   ensures  lost-machine-loses-the-task: implies(s.lost, task.state == TaskLost && !has(s.tasks, task) == !old(has(s.tasks, task)))
+//@   ensures  owned: implies(!s.lost, has(s.tasks, task) && task.state == old(task.state))
+//@   modifies Task.state, Task.waitc, s.tasks[:], s.mu
 //@ extern func exec.(*bigmachineExecutor).checkInvocationReader
 //@   modifies nothing
 //@ extern func exec.(*bigmachineExecutor).manager (i) (mgr)
@@ -188,7 +192,8 @@ package exec
 //@   modifies nothing
 //@ extern func exec.monitorTaskStats
 //@   modifies nothing
-//@ extern func exec.(*Task).Errorf
+//@ func exec.(*Task).Errorf
+//@   requires t != nil
 //@   ensures t.state == TaskErr && t.err != nil
 //@   modifies t.state, t.err, t.waitc
 // A dependency comprises its head task alone (narrow) or the head's whole phase group (shuffle), in group order.
